@@ -150,6 +150,11 @@ pub fn expect_hdr(region: &[u8]) -> Expected {
         expect_hdr_tag(&mut exp, &format!("t{i}"), region, it, it.typ);
     }
     for (name, kind) in HDR_KIND_NAMES {
+        if w.first_of(kind).map_or(false, |(_, it)| !hdr_cast_succeeds(kind, it.size as usize)) {
+            // malformed first match: rejected by a panic, or treated as absent
+            exp.either(format!("g.{name}"), vec![Val::Panic, Val::None]);
+            continue;
+        }
         let v = match w.first_of(kind) {
             Some((_, it)) => {
                 if hdr_cast_succeeds(kind, it.size as usize) {
